@@ -16,7 +16,8 @@ func init() {
 		ID: "C12",
 		Explanation: "Structural necessary conditions of 'encoded values are the specification's bytes': R1 every successful return of the encoder of a fixed-width CQL type has the specification's length (abstract byte-length analysis through helpers), the empty value only under the documented zero guards; R2 every encoder of a variable-width type returns through that type's one encoding routine (duration: three vints; varint: trimmed two's complement; decimal: 4-byte scale + two's complement); " +
 			"R3 the fixed-width primitives are big-endian (tables shared with C02.R3) and floats go through IEEE bit patterns; R4 date is floor(days) centred on 2^31 in both directions, time is nanoseconds, timestamp milliseconds; R5 collection/tuple/UDT writers frame count and elements in the specification's order with the protocol's size width; R6 vint coding: the zig-zag formulas are the reference ones, and the length formula, first-byte marker and decoder prefix count agree with the specification for every bit length / first byte (exhaustive evaluation of the extracted expressions over their finite domains)." +
-			" R6 zig-zag coding is compared as terms of the abstract interpreter (arithmetic shift on encode, logical on decode); R10 = C02.R9; R11 the element loops of the tuple / UDT decoders reach the next iteration only after taking the current element off the input.",
+			" R6 zig-zag coding is compared as terms of the abstract interpreter (arithmetic shift on encode, logical on decode); R10 = C02.R9; R11 the element loops of the tuple / UDT decoders reach the next iteration only after taking the current element off the input." +
+			" R8 also judges where the trimming stops (minimal encoding); R12 every element of a collection / UDT is decoded into a reflect value created in its own iteration (or into its own slot).",
 		NotDecided: "minimality of varint/decimal trimming for every value (encBigInt2C and the trim loop are value-dependent), float formatting, UUID parsing, arithmetic overflow of timestamp conversion: numerical.",
 		Rules: []*Rule{
 			{ID: "C12.R1", Floor: 60, Doc: "fixed-width encoders return the specification's length", Run: c12r1},
